@@ -29,16 +29,20 @@ class Drv:
         self.proc = subprocess.Popen([DRV_BIN], stdin=subprocess.PIPE, stdout=subprocess.PIPE,
                                      stderr=subprocess.DEVNULL, text=True, bufsize=1, close_fds=True)
 
-    def call(self, op, _timeout=None, **kw):
+    def call(self, op, _timeout=None, _retry=True, **kw):
         kw["op"] = op
         import select
         self.proc.stdin.write(json.dumps(kw) + "\n")
         self.proc.stdin.flush()
         ready, _, _ = select.select([self.proc.stdout], [], [], _timeout or self.CALL_TIMEOUT)
         if not ready:
-            # the model/oracle did not answer in time: restart the driver, report an infrastructure error
+            # the model/oracle did not answer in time: restart the driver; on a busy machine one more try
+            # with three times the limit before an infrastructure error is reported
             self.proc.kill()
             self._start()
+            if _retry and _timeout is None:
+                kw.pop("op")
+                return self.call(op, _timeout=3 * self.CALL_TIMEOUT, _retry=False, **kw)
             raise DrvError("driver timeout on %s" % op)
         line = self.proc.stdout.readline()
         self.calls += 1
